@@ -403,6 +403,24 @@ class QuicConn:
         self.features.add("crypto_split")
         return [(f_crypto(o, d), ("c", d)) for o, d in parts]
 
+    def _early_extra(self):
+        """frames that RFC 9000 12.4 permits in 0-RTT packets besides STREAM, in front of it: spec early_extra is a bit mask
+        (1 NEW_CONNECTION_ID - only a client with a non-empty connection ID issues them, 2 MAX_DATA, 4 PING, 8 PATH_CHALLENGE)"""
+        m = self.spec.get("early_extra", 0)
+        out = b""
+        if m & 1 and self.c_scid:
+            cid = rbytes(self.rnd, len(self.c_scid))
+            self.issued[False].append(cid)
+            out += f_new_cid(len(self.issued[False]), 0, cid, rbytes(self.rnd, 16), None, None)
+            self.features.add("ncid_in_0rtt")
+        if m & 2:
+            out += encode_frame(["maxdata", 70000, None], self.rnd)[0]
+        if m & 4:
+            out += f_ping()
+        if m & 8:
+            out += encode_frame(["pc"], self.rnd)[0]
+        return out
+
     def _client_initials(self, ch, early_chunks):
         """ClientHello in one or several Initial packets/datagrams, each datagram padded to >= 1200 bytes."""
         sp = self.spec
@@ -416,7 +434,7 @@ class QuicConn:
             chunks = []
             if gi == len(groups) - 1 and early_chunks:
                 d = early_chunks.pop(0)
-                pk.append(self.packet("early", False, f_stream(0, d, off=0), parts=[("s", d)]))
+                pk.append(self.packet("early", False, self._early_extra() + f_stream(0, d, off=0), parts=[("s", d)]))
                 chunks = [d]
                 self.features.add("0rtt_coalesced")
             self.dgram(False, *pk, chunks=chunks)
@@ -454,7 +472,7 @@ class QuicConn:
         late_chunks = early_chunks[len(early_chunks) - n_late:]
         early_dcid = self.dcid_for[False]
         for i, d in enumerate(early_chunks[:len(early_chunks) - n_late]):
-            self.dgram(False, self.packet("early", False, f_stream(0, d, off=1000 * (i + 1)), parts=[("s", d)]), chunks=[d])
+            self.dgram(False, self.packet("early", False, self._early_extra() + f_stream(0, d, off=1000 * (i + 1)), parts=[("s", d)]), chunks=[d])
             self.features.add("0rtt")
         if sp["early"]:
             self.features.add("0rtt")
